@@ -28,7 +28,8 @@ MANIFEST_ENTRY = {
         "(C02_number_seqnum, C02_number_bounds), source position = presentation time mod R for every loop "
         "count and cross-track error < 1 tick per loop (C02_alignment, C02_alignment_drift). The hand-written "
         "model is tied to the code each run by differential correspondence on real Representation/DashTiming "
-        "objects and on bytes served by the real Flask app."),
+        "objects and on bytes served by the real Flask app."
+        " get_segment_index (with its loop), generateSegmentTimeline and the handler's index calculation are in addition translated from the source text into Lean on every run and proved equal to the model (Props/GenTie*.lean, Props/Generated.lean)."),
     "level_note": (
         "Hypotheses kept explicit: H1 every segment starts inside one reference loop, H2 durations >= 1, "
         "advertised durations positive. Excluded regions are ledger findings (D10: last segment of a loop is "
